@@ -283,10 +283,70 @@ fn ctor_oracle(c: &Ctor) -> Verdict {
     Verdict::Pass("constructor-round-trip", true)
 }
 
+// ---------------------------------------------------------------- the shortest numeric texts (enumerated)
+#[derive(Clone, Debug, Serialize, Deserialize)]
+pub struct ShortText {
+    /// 0 JD, 1 MJD, 2 SEC
+    pub form: u8,
+    pub digit: u8,
+    pub scale: usize,
+}
+
+fn short_enum(_t: Tier, shard: usize, sink: &mut dyn FnMut(ShortText) -> bool) {
+    let mut i = 0;
+    for form in 0..3u8 {
+        for digit in 0..10u8 {
+            for scale in 0..9usize {
+                i += 1;
+                if i % SHARDS == shard && !sink(ShortText { form, digit, scale }) {
+                    return;
+                }
+            }
+        }
+    }
+}
+
+/// "JD 5 ET" is seven characters, the documented minimum ("at least seven characters for a valid epoch"; the
+/// documentation's examples parse JD values in ET, TDB and TAI): single-digit values in the documented spelling parse,
+/// and denote that value
+fn short_oracle(c: &ShortText) -> Verdict {
+    let id = ["JD", "MJD", "SEC"][c.form as usize];
+    let txt = format!("{} {} {}", id, c.digit, SCALE_NAMES[c.scale]);
+    let r = lib!(<Epoch as std::str::FromStr>::from_str(&txt));
+    // asserted where the statement (C10, C17) and the documentation's examples fix the denotation
+    let asserted = match c.form {
+        0 | 1 => c.scale == S_TAI || c.scale == S_UTC || (c.form == 0 && (c.scale == S_ET || c.scale == S_TDB)),
+        _ => c.scale != S_UTC,
+    };
+    if !asserted {
+        return Verdict::Skip("denotation of this form in this scale is not documented");
+    }
+    let e = match r {
+        Ok(e) => e,
+        Err(err) => return Verdict::Fail(format!("{:?} ({} characters) does not parse: {:?}", txt, txt.len(), err)),
+    };
+    let x = c.digit as f64;
+    let (back, tol) = match (c.form, c.scale) {
+        (0, S_TAI) => (lib!(e.to_jde_tai_days()), 1e-9),
+        (0, S_UTC) => (lib!(e.to_jde_utc_days()), 1e-9),
+        (0, S_ET) => (lib!(e.to_jde_et_days()), 4e-8),
+        (0, _) => (lib!(e.to_jde_tdb_days()), 4e-8),
+        (1, S_TAI) => (lib!(e.to_mjd_tai_days()), 1e-9),
+        (1, _) => (lib!(e.to_mjd_utc_days()), 1e-9),
+        _ => (ns_to_s(count(e.duration)), 1e-9),
+    };
+    ensure!((back - x).abs() <= tol, "{:?} reads back {} (difference {:e})", txt, back, (back - x).abs());
+    if c.form == 2 {
+        ensure!(e.time_scale == SCALES[c.scale], "{:?} builds an epoch in {:?}", txt, e.time_scale);
+    }
+    Verdict::Pass(if txt.len() == 7 { "seven-characters" } else { "short" }, true)
+}
+
 pub fn subs() -> Vec<Box<dyn DynSub>> {
     vec![
         sub(Sub { name: "c17.views", source: Source::Gen(view_strategy, 2_000_000, 10_000_000), oracle: view_oracle, known: no_known, hang_is_violation: false }),
         sub(Sub { name: "c17.constructors", source: Source::Gen(ctor_strategy, 2_000_000, 10_000_000), oracle: ctor_oracle, known: no_known, hang_is_violation: false }),
+        sub(Sub { name: "c17.short_text", source: Source::Enum(short_enum, |_| true), oracle: short_oracle, known: no_known, hang_is_violation: false }),
         crate::props::fuzzsub::fc17(),
     ]
 }
